@@ -58,12 +58,12 @@ def plan(tier):
                     min_evals={"sphere": 2000, "cylinder": 2000, "ellipsoid": 1500, "s_shell": 120, "e_shell": 90, "generate_mask": 60,
                                "soft_range": 1500, "soft_core": 700, "union": 1500, "intersection": 1500, "subtraction": 800,
                                "difference": 500, "algebra_inputs": 6000, "algebra_range": 6000, "shell_relational": 150,
-                               "name_vs_direct": 80, "file_vs_array": 250})
+                               "name_vs_direct": 80, "file_vs_array": 250}, min_known={"ellipsoid-eccentric-core": 10})
     return dict(n_cases=43200, shards=16, classes=CLASSES, timeout_s=3000,
                 min_evals={"sphere": 25000, "cylinder": 22000, "ellipsoid": 20000, "s_shell": 3500, "e_shell": 2500, "generate_mask": 1700,
                            "soft_range": 38000, "soft_core": 17000, "union": 45000, "intersection": 45000, "subtraction": 22000,
                            "difference": 16000, "algebra_inputs": 170000, "algebra_range": 170000, "shell_relational": 4000,
-                           "name_vs_direct": 2000, "file_vs_array": 8000})
+                           "name_vs_direct": 2000, "file_vs_array": 8000}, min_known={"ellipsoid-eccentric-core": 200})
 
 
 # =================================================================================================
